@@ -177,6 +177,23 @@ theorem C12_engine_default (c : Ctx) (s : St) (obs : List Obs) (d : DagRef) (n :
       · simp at h
 
 open MLPE.Eng in
+/-- the default is computed by **one** call of `get_default`, on the keyword arguments of the attempts; when it returns,
+its value is the node's value, reported as a success -/
+theorem C12_engine_default_value (c : Ctx) (s : St) (obs : List Obs) (d : DagRef) (n : Node) (below : List Frame)
+    (kw : Kwargs) (h : c.P.dfltRaise n = none) :
+    nodeDefault c s obs d n below kw = nodeSuccess c s (obs ++ [.dflt n kw]) d n below (c.P.dflt n kw) :=
+  nodeDefault_of_none c s obs d n below kw h
+
+open MLPE.Eng in
+/-- … and when `get_default` itself raises, that exception is the node's failure: `get_default` has been called once — it is
+not called again, with other arguments or without any —, the failure is reported by `on_node_complete(error)` and handled
+like a failure of the body after the last attempt -/
+theorem C12_engine_default_raises (c : Ctx) (s : St) (obs : List Obs) (d : DagRef) (n : Node) (below : List Frame)
+    (kw : Kwargs) (e : Exc) (h : c.P.dfltRaise n = some e) (he : e.isException = true) :
+    nodeDefault c s obs d n below kw = nodeFail c s (obs ++ [.dflt n kw]) d n below e := by
+  simp [nodeDefault, h, he]
+
+open MLPE.Eng in
 theorem C12_engine_retry (c : Ctx) (s : St) (obs : List Obs) (d : DagRef) (n : Node) (force : Bool)
     (below : List Frame) (k : Nat) (kw : Kwargs) (inv : Nat) (e : Exc)
     (h : decide (c.P.cfg n) k (.raise e) = .retry) :
